@@ -171,6 +171,19 @@ def _always_exits(block) -> bool:
     return False
 
 
+def _fallthrough_conditions(s: ast.If) -> List[Tuple[ast.expr, bool]]:
+    """The conditions under which control continues after the if statement `s`: an arm that always exits contributes the negation
+    of its test; an `elif` chain whose arms all exit (`if a: return  elif b: return  elif c: raise`) contributes all of them."""
+    out: List[Tuple[ast.expr, bool]] = []
+    if _always_exits(s.body) and not _always_exits(s.orelse):
+        out.append((s.test, False))
+        if len(s.orelse) == 1 and isinstance(s.orelse[0], ast.If):
+            out.extend(_fallthrough_conditions(s.orelse[0]))
+    elif s.orelse and _always_exits(s.orelse) and not _always_exits(s.body):
+        out.append((s.test, True))
+    return out
+
+
 def guards_of(pm: Dict[ast.AST, ast.AST], n: ast.AST, early_exits: bool = True) -> List[Tuple[ast.expr, bool]]:
     """The (test, polarity) of the conditions under which node n is reached, innermost last: the enclosing If / While /
     IfExp (polarity False = n lies in the else branch) and - guard-clause form - every earlier sibling `if c: ... return`
@@ -189,10 +202,7 @@ def guards_of(pm: Dict[ast.AST, ast.AST], n: ast.AST, early_exits: bool = True) 
                         if s is child:
                             break
                         if isinstance(s, ast.If):
-                            if _always_exits(s.body) and not _always_exits(s.orelse):
-                                here.append((s.test, False))
-                            elif s.orelse and _always_exits(s.orelse) and not _always_exits(s.body):
-                                here.append((s.test, True))
+                            here.extend(_fallthrough_conditions(s))
         # innermost last: conditions gathered at this level come after the enclosing statement's own test
         if isinstance(p, (ast.If, ast.While)):
             if any(child is s for s in p.body):
